@@ -171,6 +171,15 @@ func (x *Exec) frameAllow(c *SpecCtx, m *Expr, emit func(key string, whole bool,
 				return nil
 			}
 		}
+		for _, fv := range x.freeVarRefs {
+			// a captured variable named in a closure's modifies: the closure may assign it
+			if fv.name == m.Name {
+				for _, lf := range leavesOf(fv.typ) {
+					emit(objKey(fv.typ, lf.Path), false, fv.ref)
+				}
+				return nil
+			}
+		}
 		v, err := x.specEval(c, m)
 		if err != nil {
 			return err
